@@ -307,14 +307,15 @@ state of all its vectors (every fault-free reachable world does), `AnyVec::with_
 leads to a world that shows the same state plus one new last vector - empty, of the requested element type and trait set,
 growable, with capacity *exactly* `n` (also for `n = 0` and for zero-sized elements) - and the call returns; or the
 request cannot be met (`n` elements exceed what a layout can describe): the call panics and the world shows the same
-state plus a *released* vector (`none`): the half-built storage is given back, no destructor runs, no identity is made.
+state plus a *released* vector (`none`): the half-built storage is given back, no destructor runs, no identity is made -
+which can only happen to a request that takes memory (`n ≠ 0`, element size `≠ 0`).
 Nothing else changes either way. -/
 theorem with_capacity_refines (cfg : Cfg) (w : World) (ms : RefineMulti.MSpec) (h : RefineMulti.MRel w ms) (ty : Nat)
     (bk : Backend) (cl : Bool) (n : Nat) (hr : VecSt.resizable bk = true) :
     (RefineMulti.MRel (World.step cfg (.withCap ty bk cl n) w).1 ⟨ms.vecs ++ [some ⟨ty, [], n, false, cl⟩], ms.next⟩ ∧
         (World.step cfg (.withCap ty bk cl n) w).2 = .ok []) ∨
     (∃ m, RefineMulti.MRel (World.step cfg (.withCap ty bk cl n) w).1 ⟨ms.vecs ++ [none], ms.next⟩ ∧
-        (World.step cfg (.withCap ty bk cl n) w).2 = .panic m) :=
+        (World.step cfg (.withCap ty bk cl n) w).2 = .panic m ∧ n ≠ 0 ∧ cfg.size ≠ 0) :=
   RefineMulti.with_capacity_refines cfg w ms h ty bk cl n hr
 
 /-- **`with_capacity(n)` keeps its promise**: when `with_capacity(n)` returns, the new vector takes `n` pushes - none
